@@ -43,6 +43,9 @@ type G1Spec struct {
 	ExtraKey func(w *World) string
 	WithRefs bool
 	Note     string
+	// Share is this search's fraction of the property's time budget when several searches decide a property
+	// (0: an equal share).
+	Share float64
 }
 
 var g1Specs = map[string]func(tier string) *G1Spec{}
@@ -336,7 +339,11 @@ func runG1(prop, tier string) (*g1Stats, *G1Spec) {
 		pool.N = 8
 	}
 	if sp.Deadline > 0 {
-		sp.Deadline /= time.Duration(g1DeadlineShare)
+		if sp.Share > 0 && g1DeadlineShare > 1 {
+			sp.Deadline = time.Duration(float64(sp.Deadline) * sp.Share)
+		} else {
+			sp.Deadline /= time.Duration(g1DeadlineShare)
+		}
 		pool.Deadline = time.Now().Add(sp.Deadline)
 	}
 	findings := loadFindings()
